@@ -9,7 +9,7 @@ REAL chibicc on them (-c and -S under {-fcommon,-fno-common} x {non-PIC,-fPIC}) 
   * the directive skeleton of the -S text with Model.Emit.emit (parse_flags ..)  -> impl_vs_model
   * the symbol table with Model.Emit.symtab_of (the model of GNU as)             -> impl_vs_model
 gcc -std=gnu11 is a cross-check of the spec only ("spec_vs_reference", never a violation).
-Units that contain one of the deviations still listed in Model/Emit.v (no_known_bad = false: extern with initializer, plain-inline-first) are
+Units that contain one of the deviation still listed in Model/Emit.v (no_known_bad = false: `static T x; extern T x = c;`) are
 generated with a small probability; their disagreements go to "known_findings".
 
     run(src_dir, seed, n, verif_dir) -> dict         python3 tools/tie_emit.py <src_dir> [seed] [n]
@@ -50,7 +50,7 @@ class Gen:
         shape = rng.random()
         seq = []
         for j in range(k):
-            if j == defpos: sc = 'static' if internal else 'none'; init = 'const'
+            if j == defpos: sc = 'static' if internal else rng.choice(['none', 'none', 'extern']); init = 'const'      # extern int x = 5; is a definition (2049a24)
             else:
                 init = None
                 if internal: sc = 'static' if (j == 0 or rng.random() < 0.6) else 'extern'
@@ -61,17 +61,17 @@ class Gen:
         if rng.random() < 0.25:
             # an alignment specifier on some declarations: not after the first defining one (6.7.5p7), otherwise anywhere
             A = rng.choice([16, 32, 64]); A = max(A, ty[2])
-            firstdef = next((j for j, d in enumerate(seq) if d['sc'] != 'extern'), len(seq) - 1)
+            firstdef = next((j for j, d in enumerate(seq) if d['sc'] != 'extern' or d['init']), len(seq) - 1)
             j0 = rng.randrange(firstdef + 1)
             for j, d in enumerate(seq):
                 if j == j0 or (j > j0 and rng.random() < 0.4): d['alignas'] = A
-        if self.allow_bad and rng.random() < 0.5 and defpos is None and not internal:
-            seq[-1]['sc'] = 'extern'; seq[-1]['init'] = 'const'            # extern int x = 5;   (known deviation)
+        if self.allow_bad and internal and defpos is None:
+            seq.append(dict(kind='obj', n=n, sc='extern', tls=tls, ty=ty, init='const', alignas=None))   # static int x; extern int x = 5;  (known deviation: GLOBAL)
         return seq
     def fun_seq(self, n):
         rng = self.rng
-        style = rng.choice(['plain', 'plain', 'static', 'static_inline', 'static_inline', 'inline', 'extern_inline', 'decl_only', 'static_then_plain', 'mixed_inline'])
-        k = rng.choice([1, 1, 2, 3])
+        style = rng.choice(['plain', 'plain', 'static', 'static_inline', 'static_inline', 'inline', 'extern_inline', 'decl_only', 'static_then_plain', 'mixed_inline', 'any_mix', 'any_mix', 'inline_then_other'])
+        k = rng.choice([1, 1, 2, 3, 4])
         seq = []
         def fd(sc, inl, body): return dict(kind='fun', n=n, sc=sc, inl=inl, body=body)
         if style == 'decl_only':
@@ -90,8 +90,10 @@ class Gen:
                 # first declaration not inline (or extern inline), later ones anything non-static: an external definition
                 if j == 0: seq.append(fd(rng.choice(['none', 'extern']), False, b))
                 else: seq.append(fd(rng.choice(['none', 'extern']), rng.random() < 0.6, b))
-        if self.allow_bad and style == 'inline' and k > 1 and rng.random() < 0.7:
-            seq[-1]['sc'] = 'extern'                                          # inline f(){}  extern inline f();  (known deviation)
+            elif style == 'any_mix':            # every mixture of plain / extern / inline, in any order (85373f4)
+                seq.append(fd(rng.choice(['none', 'extern']), rng.random() < 0.6, b))
+            elif style == 'inline_then_other':  # the C99 idiom: inline definition first, then `extern inline` or a plain declaration
+                seq.append(fd('none', True, b) if j == 0 else fd(rng.choice(['extern', 'none']), rng.random() < 0.5, b))
         return seq
     def unit(self):
         rng = self.rng
@@ -170,6 +172,12 @@ def boundary_units():
     us.append([f(1, 'none', False, False), f(2, 'static', False, True), f(3, 'static', True, True), o(4, 'none', ('addr', 1), ty=PTR_TYPE),
                o(5, 'static', ('addr', 2), ty=PTR_TYPE), f(6, 'extern', True, True, [('ref', 3)]), o(7, 'none', ('addr', 6), ty=PTR_TYPE),
                f(1, 'none', False, True, [('ref', 5)])])
+    us.append([o(1, 'extern', 'const'), o(2, 'none'), o(2, 'extern', 'const'), o(3, 'extern', 'const', tls=True), o(4, 'extern'), o(4, 'extern', 'const'), o(4, 'extern'),
+               f(5, 'none', True, True), f(5, 'extern', True, False), f(6, 'none', True, False), f(6, 'none', False, True), f(7, 'none', True, True),
+               f(8, 'extern', True, False), f(8, 'none', True, True), f(10, 'none', True, False), f(10, 'none', True, True), f(10, 'extern', False, False),
+               f(11, 'static', True, True, [('static', False, I, False), ('static', True, I, True), ('str', 4)]),
+               f(12, 'static', True, True, [('static', False, A, True), ('ref', 12)]),
+               f(9, 'none', False, True, [('ref', 12), ('ref', 7), ('ref', 1), ('static', False, I, True)])])
     us.append([o(1, 'none', al=64), o(1, 'none'), o(2, 'none', al=64), o(2, 'none', 'const'), o(3, 'extern'), o(3, 'none', 'const', al=64),
                o(4, 'extern', al=64), o(4, 'none'), o(5, 'static', al=32, tls=True), o(5, 'extern', tls=True), o(5, 'static', tls=True),
                o(6, 'none', al=16, ty=A), o(6, 'none', ty=A), o(7, 'extern', al=64), f(9, 'none', False, True, [('ref', 7), ('ref', 5)])])
@@ -267,7 +275,7 @@ Definition run (ds : list decl) :=
    map (fun o => let prog := parse_flags ds in let asmtext := emit o prog in
                  (map (fun n => (n, option_map enc_e (spec_entry live ds o n), enc_l (symtab_of asmtext n))) names,
                   asmtext, map enc_a (anon_placements asmtext))) all_opts,
-   map enc_a (spec_anon ds),
+   map enc_a (spec_anon live ds),
    forallb (fun n => Bool.eqb (live n) (model_live (ps_globals (parse ds)) n)) (fun_names ds)).
 '''
 
@@ -420,7 +428,7 @@ def features(order):
     return f
 
 # ---------------------------------------------------------------- the run
-def run(src_dir, seed=1, n=70, verif_dir=None):
+def run(src_dir, seed=1, n=60, verif_dir=None):
     t0 = time.time()
     if verif_dir is None: verif_dir = os.path.dirname(os.path.dirname(os.path.abspath(__file__)))
     chibicc = os.path.join(os.path.abspath(src_dir), 'chibicc')
@@ -528,7 +536,7 @@ def run(src_dir, seed=1, n=70, verif_dir=None):
 if __name__ == '__main__':
     if len(sys.argv) < 2:
         print(__doc__); sys.exit(2)
-    src = sys.argv[1]; seed = int(sys.argv[2]) if len(sys.argv) > 2 else 1; n = int(sys.argv[3]) if len(sys.argv) > 3 else 70
+    src = sys.argv[1]; seed = int(sys.argv[2]) if len(sys.argv) > 2 else 1; n = int(sys.argv[3]) if len(sys.argv) > 3 else 60
     vd = os.environ.get('VERIF_DIR') or os.path.dirname(os.path.dirname(os.path.abspath(__file__)))
     r = run(src, seed, n, vd)
     print(json.dumps(r, indent=1, default=str))
